@@ -410,6 +410,7 @@ func TestCheck(t *testing.T) {
 	bubble.SetT(t)
 	r := report.Start(t, "C19")
 	defer r.Finish()
+	bubble.WatchDeadlocks(3, func(frame, dump string) { r.DeadlockVerdict("c19", frame, dump) })
 
 	r.Group("sequences", r.Pick(96, 2000), func(i int, rng *report.Rand) {
 		conf := routing.ProphetConfig{PInit: prob(rng), Beta: prob(rng), Gamma: prob(rng), AgeInterval: "10s"}
